@@ -92,7 +92,11 @@ class AbstractTypeResolver:
                 if id_func(obj):
                     enum_type = data_type
                     break
-            if obj_type not in self.cache_blocklist:
+            # isinstance() goes by ``obj.__class__``. For an object that reports a
+            # class other than its type (weak proxies, lazy proxies) the category
+            # is that of the object it stands for, so the answer for one instance
+            # says nothing about the next instance of the same type: never cache.
+            if obj_type not in self.cache_blocklist and obj.__class__ is obj_type:
                 self.type_map[obj_type] = enum_type
 
         return enum_type
